@@ -313,12 +313,22 @@ Proof.
   - cbn [fold_left concat]. rewrite app_nil_r. auto.
   - cbn [fold_left concat] in *. rewrite zlen_app in Hb.
     pose proof (zlen_nonneg d). pose proof (zlen_nonneg (concat r)). pose proof (zlen_nonneg (a_detail a)).
-    destruct (IH (fst (add_action_detail a d))) as (E1 & E2 & E3 & E4).
-    + unfold add_action_detail. cbv zeta. cbn [fst a_detail a_detail_len].
-      rewrite Hl, zlen_app. apply Z.mod_small. lia.
-    + unfold add_action_detail. cbv zeta. cbn [fst a_detail]. rewrite zlen_app. lia.
-    + unfold add_action_detail in E1, E2, E3. cbv zeta in E1, E2, E3.
-      cbn [fst a_detail a_hdr a_category] in E1, E2, E3.
+    unfold byte in *.
+    destruct (zlen d =? 0) eqn:Ed.
+    { assert (d = []) as -> by (destruct d as [|x d']; [reflexivity|]; rewrite zlen_cons in Ed; pose proof (zlen_nonneg d'); lia).
+      assert (Ea : add_action_detail a [] = (a, a_detail_len a)) by reflexivity.
+      unfold byte in Ea. rewrite Ea. cbn [fst app]. apply IH; [exact Hl|]. rewrite zlen_nil in Hb. lia. }
+    assert (Ea : add_action_detail a d =
+                 ({| a_hdr := a_hdr a; a_category := a_category a; a_detail := a_detail a ++ d;
+                     a_detail_len := a_detail_len a + zlen d |}, a_detail_len a + zlen d)).
+    { unfold add_action_detail. unfold byte in *. rewrite Ed.
+      replace (255 <? a_detail_len a + zlen d) with false by (symmetry; apply Z.ltb_ge; lia). reflexivity. }
+    unfold byte in Ea. rewrite Ea. cbn [fst].
+    destruct (IH {| a_hdr := a_hdr a; a_category := a_category a; a_detail := a_detail a ++ d;
+                    a_detail_len := a_detail_len a + zlen d |}) as (E1 & E2 & E3 & E4).
+    + cbn [a_detail a_detail_len]. rewrite Hl, zlen_app. reflexivity.
+    + cbn [a_detail]. rewrite zlen_app. lia.
+    + cbn [a_detail a_hdr a_category] in E1, E2, E3.
       rewrite <- app_assoc in E3. auto.
 Qed.
 
